@@ -204,6 +204,21 @@ func suiteFuzz(seed uint64, n int, work string) {
 		out.Flush()
 		st.run("reset")
 		st.run(optLine(r.Intn(2), r.Intn(2), r.Intn(2), r.Intn(2), []int{100, 200, 1000}[r.Intn(3)]))
+		// some content first, so that calls reach the interesting code
+		st.run("begin w ?")
+		{
+			g := &Gen{r: r, p: profileByName("mixed"), seg: 200, wrote: map[string]bool{}}
+			for len(g.calls) < 8 {
+				g.anyOp(true)
+			}
+			for _, c := range g.calls {
+				if !strings.HasPrefix(c, "put ") || !strings.Contains(c, "x4f4f4f4f") {
+					st.run(c)
+				}
+			}
+		}
+		st.run("commit")
+		st.run("rollback")
 		for j := 0; j < 60 && !st.dead; j++ {
 			var c string
 			switch r.Intn(60) {
@@ -231,8 +246,13 @@ func suiteFuzz(seed uint64, n int, work string) {
 				c = "range " + pick(bs) + " " + pick(ks) + " " + pick(ks)
 			case 12:
 				c = "pscan " + pick(bs) + " " + pick(ks) + " " + pick(ints) + " " + pick(ints)
-			case 13:
-				c = "psscan " + pick(bs) + " " + pick(ks) + " " + pick(res) + " " + pick(ints) + " " + pick(ints)
+			case 13, 44, 45:
+				if r.Bool() {
+					// the same few (invalid) patterns again and again, on buckets that hold keys
+					c = "psscan " + hx([]byte(defBuckets[r.Intn(len(defBuckets))])) + " x " + pick(res[:4]) + " 0 " + []string{"-1", "1", "5"}[r.Intn(3)]
+				} else {
+					c = "psscan " + pick(bs) + " " + pick(ks) + " " + pick(res) + " " + pick(ints) + " " + pick(ints)
+				}
 			case 14, 15:
 				c = []string{"rpush ", "lpush "}[r.Intn(2)] + pick(bs) + " " + pick(ks) + " " + vl()
 			case 16:
@@ -289,6 +309,9 @@ func suiteFuzz(seed uint64, n int, work string) {
 					continue
 				}
 				c = g.calls[0]
+			}
+			if !st.txActive && st.db != nil && r.Chance(3, 5) && c != "close" && c != "merge" && c != "backup" && c != "reopen-any" && !strings.HasPrefix(c, "begin") && c != "commit" && c != "rollback" {
+				st.run([]string{"begin w ?", "begin w ?", "begin r ?"}[r.Intn(3)])
 			}
 			// calls that take the database lock would block forever behind the harness's own open transaction
 			if st.txActive && (c == "close" || c == "merge" || c == "backup" || c == "reopen-any" || strings.HasPrefix(c, "begin")) {
